@@ -156,6 +156,25 @@ def apply_op(c, model, op, kind):
             o = make(op["t"])
             c.append(o)
             model.append(o)
+        elif name in ("extend-bad", "set_avps-bad"):
+            # a bulk operation whose list contains something that is not an AVP at position `at`: it is refused; whatever part of it
+            # took effect before the refusal must leave the message coherent (the caller catches the error and goes on)
+            objs = [make(t) for t in op["ts"]]
+            bad = objs[:op["at"] % (len(objs) + 1)] + [["not-an-avp", 7, None, b"raw"][op["at"] % 4]] + objs[op["at"] % (len(objs) + 1):]
+            before = list(c.avps)
+            try:
+                if name == "extend-bad":
+                    c.extend(bad)
+                else:
+                    c.avps = bad
+            finally:
+                after = list(c.avps)
+                valid_prefix = objs[:op["at"] % (len(objs) + 1)]
+                allowed = [before, before + valid_prefix, valid_prefix, []] if name == "extend-bad" else [before, valid_prefix, []]
+                hit = next((a for a in allowed if len(a) == len(after) and all(x is y for x, y in zip(a, after))), None)
+                if hit is not None:
+                    model[:] = hit
+                    op["_partial"] = True
         elif name == "extend":
             objs = [make(t) for t in op["ts"]]
             c.extend(objs)
@@ -195,6 +214,8 @@ def apply_op(c, model, op, kind):
             want_cls = {"session_id_avp": "SessionIdAVP", "origin_host_avp": "OriginHostAVP", "origin_host_avp__1": "OriginHostAVP"}.get(op["new"])
             if want_cls and type(names_of(c)[k]).__name__ != want_cls:
                 return "update_key-skip-reserved-name", None
+            if op["new"] in ("_loaded", "_avps", "_header", "header", "avps") and kind == "grouped":
+                return "update_key-skip-message-state-name", None     # these are the *message's* own attributes
             c.update_key(k, op["new"])
         elif name == "update_avps":
             if kind == "grouped":
@@ -231,14 +252,24 @@ def run_ops(case):
         return vs
     for step, op in enumerate(case["ops"], 1):
         snapshot = list(model)
+        try:
+            list(c.avps), c.dump() if hasattr(c, "dump") else None
+        except (Exception,) + errors as e:
+            return [V("the container stays usable (its AVP list can be read and serialised) after every operation",
+                      f"unusable/after-{case['ops'][step - 2]['op'] if step > 1 else 'construction'}/{type(e).__name__}", f"step {step - 1}: {e!r}")]
         name, exc = apply_op(c, model, op, kind)
         if exc is not None:
-            model[:] = snapshot if name not in ("append", "extend", "set_avps") else snapshot
+            if not op.pop("_partial", False):
+                model[:] = snapshot
             if not isinstance(exc, errors):
                 return [V("container operations on valid arguments do not fail with a foreign error",
                           f"op-raises/{name}/{type(exc).__name__}", f"step {step}: {exc!r}")]
             # a library error: the operation was refused, state must be unchanged
-        vs = invariants(c, model, kind, step, name)
+        try:
+            vs = invariants(c, model, kind, step, name)
+        except (TypeError, AttributeError, KeyError, IndexError) as e:
+            return [V("the container stays usable (its AVP list can be read and serialised) after every operation",
+                      f"unusable/after-{name}/{type(e).__name__}", f"step {step}: {e!r}")]
         if vs:
             return vs
     return []
@@ -250,7 +281,9 @@ def run_case(case):
 
 # ---------------------------------------------------------------- generators
 templ = st.integers(0, N_TEMPL - 1)
-NEW_NAMES = ["alias", "my_custom_avp", "origin_host_avp", "origin_host_avp__1", "session_id_avp", "renamed_avp__2", "x"]
+NEW_NAMES = ["alias", "my_custom_avp", "origin_host_avp", "origin_host_avp__1", "session_id_avp", "renamed_avp__2", "x",
+             # names the message uses for its own state: the rename is refused, or at least leaves the message coherent
+             "_loaded", "_avps", "_header", "header", "avps"]
 UPD = [("origin_host", "host-c.example.org"), ("origin_realm", "new-realm"), ("user_name", "someone"), ("session_id", "sid;7;7;x"),
        ("origin_host__1", "host-d"), ("host_ip_address", "10.9.8.7"), ("unknown", "zzz"), ("vendor_id", 5)]
 op = st.one_of(
@@ -261,6 +294,8 @@ op = st.one_of(
     st.builds(lambda i: {"op": "pop", "i": i}, st.integers(0, 7)),
     st.just({"op": "cleanup"}),
     st.builds(lambda ts: {"op": "set_avps", "ts": ts}, st.lists(templ, min_size=0, max_size=3)),
+    st.builds(lambda k, ts, at: {"op": k, "ts": ts, "at": at}, st.sampled_from(["extend-bad", "set_avps-bad"]), st.lists(templ, min_size=1, max_size=3),
+              st.integers(0, 7)),
     st.builds(lambda i, t, n: {"op": "setitem", "i": i, "t": t, "neg": n}, st.integers(0, 7), templ, st.booleans()),
     st.builds(lambda i, n: {"op": "update_key", "i": i, "new": n}, st.integers(0, 7), st.sampled_from(NEW_NAMES)),
     st.builds(lambda kv: {"op": "update_avps", "key": kv[0], "value": kv[1]}, st.sampled_from(UPD)),
